@@ -3,8 +3,16 @@ package main
 
 import "verif/lib/harness"
 
+func assumptions(h *harness.H) {
+	h.Assume("'while it keeps up': handlers only append to a mutex-guarded slice and every burst between two observed quiescent points issues < 64 transactions (the per-handler channel of observe.NewAsync holds 64, the persist splitter's relay 500), so a dropped notification cannot be legitimate; behaviour of slow subscribers is not asserted")
+	h.Assume("cluster level: handlers receive xkv.Change without versions; unique values identify the Set, the single writer's issue order is the version order of a key, a Delete notification is matched to the next unmatched Delete of the issue order; unacknowledged writes (injected loss of the acknowledgement) may or may not have been applied")
+	h.Assume("state changes made by start-up recovery inside aspen.Open cannot have a subscriber and are excluded (baseline = engine state read right after subscribers were attached to the reopened DB)")
+	h.Assume("quiescence is observed as in C06 (probe of every node's infected set), watchdog 45 s -> inconclusive; at a non-quiescent checkpoint only the at-most-once / never-stale / filter-passed checks run")
+}
+
 func main() {
 	harness.Main("C13", "exploration",
+		harness.Layer{Name: "assumptions", Run: assumptions},
 		harness.Layer{Name: "ingress", Run: layerIngress},
 		harness.Layer{Name: "directed", Run: layerDirected},
 		harness.Layer{Name: "cluster", Run: layerCluster},
